@@ -11,7 +11,6 @@ Proof.
   intros pt now g e cs a H.
   destruct e; cbn [compile] in H; try discriminate.
   destruct (forallb (no_throw pt now) kids) eqn:Hnt; [|discriminate].
-  destruct (emit pt now g (Objective n kids)) as [[vs rs] gs] eqn:He.
   injection H as <-.
   unfold objective_value; cbn [cs_obj].
   cbn [solve parse generic pu_util].
